@@ -739,6 +739,7 @@ def gen_syscall(rng):
         if not cand: return None
         k, key = rng.choice(cand)
         if k == "s": key = rng.randrange(4)
+        if k == "f" and rng.random() < 0.25: k = "o"      # syscall_once of the same function: fresh state, not cached
         return "%s %d %d" % (k, key, rng.randrange(1, 9))
     for r, (k, key) in enumerate(ranks):
         excl = rng.random() < 0.4
